@@ -382,7 +382,7 @@ def main(tier):
     return code
 
 
-def replay(obj):
+def replay_case(obj):
     if "behaviour" not in obj:
         return True, obj
     r = run_behaviour(obj["behaviour"])
